@@ -188,7 +188,11 @@ func runC01(c *core.Ctx) {
 	{
 		exact := map[int][]string{1: {"#c"}, 2: {"scalar A"}, 3: {"scalar A #c"}, 5: {"enum E { A }"}, 7: {"type T { a: Int }"}, 4: {"scalar A scalar B"}}
 		var tails []string
-		for _, k := range []int{3, 10, 1000, 100000} {
+		depths := []int{3, 10, 1000, 20000}
+		if !c.Quick {
+			depths = append(depths, 100000)
+		}
+		for _, k := range depths {
 			tails = append(tails, "input I { a: X = "+strings.Repeat("[", k), "type T { a: "+strings.Repeat("[", k)+"Int", "input I { a: X = "+strings.Repeat("{k: ", k),
 				"input I { a: X = "+strings.Repeat("[", k)+"1"+strings.Repeat("]", k)+" }", strings.Repeat("scalar S ", k))
 		}
@@ -252,15 +256,25 @@ func runC01(c *core.Ctx) {
 	}
 	for _, bg := range bigs {
 		for _, schema := range []bool{false, true} {
+			op := map[bool]string{false: "pq", true: "ps"}[schema]
+			args := [][]byte{[]byte("0"), []byte(strconv.Itoa(bg.limit)), []byte(bg.input)}
+			if schema {
+				args = [][]byte{[]byte("0"), []byte(strconv.Itoa(bg.limit)), []byte("0"), []byte(bg.input)}
+			}
 			t0 := time.Now()
-			out := c.Impl(0, map[bool]string{false: "pq", true: "ps"}[schema], func() [][]byte {
-				if schema {
-					return [][]byte{[]byte("0"), []byte(strconv.Itoa(bg.limit)), []byte("0"), []byte(bg.input)}
-				}
-				return [][]byte{[]byte("0"), []byte(strconv.Itoa(bg.limit)), []byte(bg.input)}
-			}()...)
+			out := c.Impl(0, op, args...)
 			el := time.Since(t0)
 			budget := time.Duration(len(bg.input))*20*time.Microsecond/1 + 50*time.Millisecond
+			// a wall-clock measurement: a slow or loaded machine is not a slow parser, so an
+			// overrun is measured twice more and the least of the three counts
+			for rep := 0; rep < 2 && el > budget; rep++ {
+				t0 = time.Now()
+				out = c.Impl(0, op, args...)
+				if e2 := time.Since(t0); e2 < el {
+					el = e2
+				}
+				c.Count("big_inputs_measured_again_after_an_overrun", 1)
+			}
 			c.Count("big_inputs_measured", 1)
 			if strings.HasPrefix(out, "panic") || el > budget {
 				c.ReportOracle("runtime-budget", map[string]interface{}{"family": bg.name, "bytes": len(bg.input), "limit": bg.limit,
